@@ -935,6 +935,67 @@ def run(rec):
                     'first_then_second': [a1, b1] if a1 != a2 else [b2, a2], 'as_first': a1 if a1 != a2 else b2,
                     'as_second': a2 if a1 != a2 else b1})
         rec.case(('S2', k))
+    # ---- phase W: blocking helpers behind falcon.wrap_sync_to_async(..., threadsafe=False) ("run serially in a
+    #      global single-threaded executor"): two requests in flight on a real event loop, each awaiting a
+    #      DIFFERENT wrapper over one shared read-modify-write state; the responses must be those of some serial order
+    import asyncio as _aio
+    import time as _time
+    for k in range(4 if quick else 30):
+        ledger = {'v': 100}
+
+        def deposit(n):
+            cur = ledger['v']
+            _time.sleep(0.003)
+            ledger['v'] = cur + n
+            return ledger['v']
+
+        def withdraw(n):
+            cur = ledger['v']
+            _time.sleep(0.003)
+            ledger['v'] = cur - n
+            return ledger['v']
+        ops = {'dep': falcon.wrap_sync_to_async(deposit, threadsafe=False),
+               'wd': falcon.wrap_sync_to_async(withdraw, threadsafe=False)}
+
+        class Ledger:
+            async def on_post(self, req, resp, op):
+                resp.media = {'v': await ops[op](req.get_param_as_int('n'))}
+        wapp = falcon.asgi.App()
+        wapp.add_route('/l/{op}', Ledger())
+
+        async def one(op, n):
+            sent = []
+            script = [{'type': 'http.request', 'body': b'', 'more_body': False}]
+            done = _aio.Event()
+
+            async def receive():
+                if script:
+                    return script.pop(0)
+                await done.wait()
+                return {'type': 'http.disconnect'}
+
+            async def send(ev):
+                sent.append(ev)
+                if ev['type'] == 'http.response.body' and not ev.get('more_body'):
+                    done.set()
+            await wapp(A.make_scope('POST', '/l/' + op, 'n=%d' % n), receive, send)
+            body = b''.join(e.get('body', b'') for e in sent if e['type'] == 'http.response.body')
+            return json.loads(body)['v']
+
+        async def both():
+            return await _aio.gather(one('dep', 30), one('wd', 70))
+        loop = _aio.new_event_loop()
+        try:
+            got = tuple(loop.run_until_complete(_aio.wait_for(both(), 30)))
+        except Exception as ex:  # noqa
+            got = ('raised', repr(ex))
+        finally:
+            loop.close()
+        rec.count('mon.serial_equivalence.W')
+        if got not in ((130, 60), (60, 30)):
+            rec.violation('serial-executor-results-not-serializable', {'phase': 'W', 'start': 100, 'deposit': 30, 'withdraw': 70,
+                                                                       'got': got, 'serial_orders': [[130, 60], [60, 30]]})
+        rec.case(('W', k))
     # ---- phase D: unsupervised stress (real preemption, tiny switch interval)
     old = sys.getswitchinterval()
     sys.setswitchinterval(1e-6)
@@ -1023,6 +1084,7 @@ def run(rec):
     rec.floor('mon.serial_equivalence.D', 20)
     rec.floor('mon.serial_equivalence.S', 100)
     rec.floor('mon.position_independence', 10)
+    rec.floor('mon.serial_equivalence.W', 8)
     rec.floor('mon.long_lived_app', 40)
     rec.floor('mon.serial_equivalence.asgi', 30)
     rec.floor('mon.serial_equivalence.E', 20)
